@@ -327,7 +327,9 @@ func checkC18Registry(sc *Scenario, acc *Acc) *c18Fail {
 	}
 	for _, name := range sortedKeys(ex.Expect) {
 		o := w.RunOp(Op{Kind: "string", Name: name, Data: c18Data}, Budget)
-		if o.Kind != "ok" || o.Out != ex.Expect[name] {
+		// whitespace between directives is a matter of taste the property does not fix
+		squeeze := func(x string) string { return strings.Join(strings.Fields(x), "") }
+		if o.Kind != "ok" || squeeze(o.Out) != squeeze(ex.Expect[name]) {
 			return &c18Fail{sig: "registry:wrong-rendering-of-page-with-layout:" + ex.Spelling, clause: "a page that uses a layout / a component by name renders something else than that layout and component (the reference resolved to another file)",
 				detail: fmt.Sprintf("name %q", name), exp: fmt.Sprintf("%q", ex.Expect[name]), got: o.Short()}
 		}
